@@ -207,8 +207,9 @@ def history_job_(job, st):
     sigs = set()
     ops = OPSETS[job[3]] if len(job) > 3 else history_ops()
     env0 = settings()
+    explicit = tuple(job[4]) if len(job) > 4 else None       # replay: exactly this continuation
     for L in range(1, depth + 1):
-        for rest in itertools.product(ops, repeat=L - 1):
+        for rest in (itertools.product(ops, repeat=L - 1) if explicit is None else ([explicit] if L == len(explicit) + 1 else [])):
             hist = (first_op,) + rest
             uid = e1.unique_name('c18h')
             g = build(uid)
@@ -665,7 +666,7 @@ def all_jobs(tier):
     for op in NAME_OPS:
         yield ('hist', op, 5 if tier == 'quick' else 6, 'names')
     for op in ARG_OPS:
-        yield ('hist', op, 3 if tier == 'quick' else 5, 'args')
+        yield ('hist', op, 3 if tier == 'quick' else 4, 'args')
     for op in COMPILE_OPS:
         yield ('hist', op, 3 if tier == 'quick' else 4, 'compile')
     for op in PAIR_OPS:
@@ -705,7 +706,7 @@ def run(tier, seed):
     chk.rule = ('one grammar (classes, ignore, template, inline-Python callback, error paths): (i) ALL histories of length <= 3 (thorough 4) '
                 'over 18 operations (9 parse calls with different texts / offsets / entry rules / fullparse, a call abandoned by a raising '
                 'callback, building another grammar, building a grammar that reuses the name, building a grammar that extends it and adds an ignore, 3 calls through that derived grammar), each '
-                'replayed on a freshly built module, all histories of length <= 5 (6) over the 5 operations that build, rebuild under the same name and use grammars, all histories of length <= 3 (5; compilations 4) over 7 operations around a parameterised class entry requested with equal but distinguishable arguments (1, True, 1.0, [1], [True]) and over 9 operations around compilations (a grammar full of `| Fail()` choices, 4 rejected descriptions, the scenario description compiled again and called 31 times, 24 of them failing at different expressions: same outcomes incl. the failure report; interpreter settings unchanged after every operation), plus all histories of length <= 4 (5) over 6 calls through a base grammar without ignore and a derived grammar with one; (ii) ALL thread interleavings with <= 1 preemption of every pair of 8 call bodies (incl. '
+                'replayed on a freshly built module, all histories of length <= 5 (6) over the 5 operations that build, rebuild under the same name and use grammars, all histories of length <= 3 (4) over 7 operations around a parameterised class entry requested with equal but distinguishable arguments (1, True, 1.0, [1], [True]) and over 9 operations around compilations (a grammar full of `| Fail()` choices, 4 rejected descriptions, the scenario description compiled again and called 31 times, 24 of them failing at different expressions: same outcomes incl. the failure report; interpreter settings unchanged after every operation), plus all histories of length <= 4 (5) over 6 calls through a base grammar without ignore and a derived grammar with one; (ii) ALL thread interleavings with <= 1 preemption of every pair of 8 call bodies (incl. '
                 'failing and raising ones) and of a parse against a concurrent Grammar() construction, <= 2 preemptions on reduced pairs '
                 '(thorough: 3 threads, opcode granularity), scheduling points = line events of the generated module under a baton '
                 'scheduler; (iii) EVERY single deviation (nested parse discarded / embedded x 9 calls, nested parse of the outer text object, a Grammar() construction, a nested result wrapped around an object of the running parse, raise) at every inline-Python '
@@ -714,7 +715,7 @@ def run(tier, seed):
                 'operation after another / deviation')
     chk.assumptions = ['preemption is owned at line (thorough: bytecode) boundaries inside the generated module; C-level atomicity of dict/list/re is assumed (GIL)',
                        'a schedule is believed to violate only if it replays identically twice']
-    chk.explore(dispatch, all_jobs(tier), init=init, chunk=1, job_deadline=600, stop_on_violation=True)
+    chk.explore(dispatch, all_jobs(tier), init=init, chunk=1, job_deadline=1500, stop_on_violation=True)
     if chk.ctr.get('schedule_jobs_cut_by_wall_cap'):
         chk.caps.append('%d schedule job(s) cut by the 400 s wall cap' % chk.ctr['schedule_jobs_cut_by_wall_cap'])
     chk.notes['distinct_outcomes'] = len(chk.sets.get('outcomes', ()))
@@ -727,19 +728,16 @@ def replay(rep):
     case = rep['case']
     if 'history' in case:
         hist = [tuple(o) for o in case['history']]
-        r = history_job(('hist', hist[0], 1), st) if len(hist) == 1 else None
-        g = build(e1.unique_name('c18r'))
-        bad = 0
-        for op in hist:
-            if op[0] == 'call':
-                o = outcome(g, CALLS[op[1]])
-                ok = o == st['base'][op[1]]
-                print(op, 'ok' if ok else 'DIFFERS')
-                bad += not ok
-            elif op[0] == 'raise':
-                o = outcome(g, CALLS[0], raising=True)
-                print(op, o[6])
-        return 1 if bad else 0
+        if case.get('scenario') != 'single grammar':
+            print('re-run ./check C18 quick for histories of the base/derived pair scenario')
+            return 1
+        # exactly this history, on a freshly built module (compilation histories run under the default recursion limit)
+        opset = 'compile' if any(o[0] in ('build-fails', 'fresh-build', 'build-rejected') for o in hist) else 'names'
+        r = history_job(('hist', hist[0], len(hist), opset, hist[1:]), st)
+        for v in r['viol']:
+            print(v['sig'], '\n  expected:', v['expected'][:200], '\n  got:     ', v['got'][:200])
+        print('history of %d operations replayed: %s' % (len(hist), 'VIOLATION' if r['viol_keys'] else 'ok'))
+        return 1 if r['viol_keys'] else 0
     if 'schedule' in case:
         specs = tuple(tuple(int(x) if x.isdigit() else x for x in s) for s in case['threads'])
         sched = {tuple(k): v for k, v in case['schedule']}
